@@ -128,7 +128,11 @@ def c04(trace, V):
             V.check("headline_vs_optimum", opt * (1 - 1e-4) - 1e-6 <= headline <= opt * (1 + 5e-5) + 1e-6, idn,
                     lambda: {"headline": headline, "optimum": opt, "relative": (headline - opt) / max(1e-12, abs(opt))},
                     "headline differs from the optimiser's own optimum by more than 0.01 %")
-        # (4) CSV written for this round holds the returned numbers
+        # (4) the table on disk for this round holds the returned numbers. If no write was observed
+        # (a run that trusts an existing file) the documented path is read anyway.
+        if rec.get("csv_path") is None and rec.get("csv_expected_path"):
+            rec = dict(rec, csv_path=rec["csv_expected_path"], csv_text=rec.get("csv_expected_text"))
+            V.ev("csv_no_write_observed")
         if rec.get("csv_path") is not None:
             txt = rec.get("csv_text")
             ok_file = txt is not None
@@ -343,7 +347,17 @@ def c03(trace, V):
         return
     final = humans[-1]
     ci = trace.first["inputs"]
-    T = float(ci["MINIMUM_PERCENT_FED_BEFORE_NONHUMAN_CONSUMPTION_ALLOWED"])
+    # the configured minimum share comes from the caller's options (numeric override, else the share the
+    # documented shut-off value implies), not from what the dispatcher made of it
+    opts = trace.spec.get("options", {})
+    if "MINIMUM_PERCENT_FED_BEFORE_NONHUMAN_CONSUMPTION_ALLOWED" in opts:
+        T = float(opts["MINIMUM_PERCENT_FED_BEFORE_NONHUMAN_CONSUMPTION_ALLOWED"])
+    else:
+        T = 10.0 if str(opts.get("shutoff", "")).endswith("after_10_percent_fed") else 100.0
+    T_used = float(ci["MINIMUM_PERCENT_FED_BEFORE_NONHUMAN_CONSUMPTION_ALLOWED"])
+    V.check("threshold_as_configured", abs(T_used - T) <= 1e-12 * (1 + abs(T)), {},
+            {"configured": T, "used": T_used, "shutoff": opts.get("shutoff")},
+            "the minimum share the run works with is not the configured one")
     eps = max(0.1, 1e-3 * T)
     N = ci["NMONTHS"]
     three = len(trace.rounds) >= 3 and trace.rounds[0]["type"] == "to_humans" and len(humans) >= 2
